@@ -22,7 +22,9 @@ import (
 	"os"
 	"os/exec"
 	"path/filepath"
+	"runtime"
 	"sort"
+	"strconv"
 	"strings"
 	"sync"
 	"syscall"
@@ -79,6 +81,9 @@ type Workload struct {
 	BulkStride int    // bulk.go: sampling stride of the captures inside the flush
 	BulkEvery  int    // bulk.go: after the flush every BulkEvery-th hit is captured (≤ 1 = all)
 	Lib        bool   // miss3.go: every capture is ALSO re-opened in library mode (NewChainExt without DoNotRescan) in quick runs
+	// miss4.go closeTie: the history as the model of Close sees it (Model/PersistIdx.lean, oracle op closeg): c:<block name> commit,
+	// u:<block name gone back to> undo, i:<skip> Idle, r restart; "base" is the base chain's tip
+	CloseTok []string
 }
 
 func blk(name, parent string, nout int, spend ...string) Op {
@@ -282,9 +287,17 @@ type refBlock struct {
 }
 
 type Ref struct {
+	mu     sync.Mutex // phase A of the next workload adds blocks while phase B of the previous one reads (harness.go)
 	blocks map[string]*refBlock
 	memo   map[string]map[string]string // tip -> outpoint -> line
 	gen    string
+}
+
+// blk: the block with this hash (nil = unknown); refBlock values are never changed after add
+func (r *Ref) blk(h string) *refBlock {
+	r.mu.Lock()
+	defer r.mu.Unlock()
+	return r.blocks[h]
 }
 
 func newRef() *Ref {
@@ -299,6 +312,8 @@ func (r *Ref) add(raw []byte) string {
 	if err != nil {
 		panic(err)
 	}
+	r.mu.Lock()
+	defer r.mu.Unlock()
 	h := hex.EncodeToString(bl.Hash.Hash[:])
 	p := hex.EncodeToString(bl.ParentHash())
 	ht := uint32(1)
@@ -309,7 +324,14 @@ func (r *Ref) add(raw []byte) string {
 	return h
 }
 
+// utxoAt: the returned map is shared and must not be changed by the caller
 func (r *Ref) utxoAt(tip string) map[string]string {
+	r.mu.Lock()
+	defer r.mu.Unlock()
+	return r.utxoAtL(tip)
+}
+
+func (r *Ref) utxoAtL(tip string) map[string]string {
 	if m, ok := r.memo[tip]; ok {
 		return m
 	}
@@ -317,7 +339,7 @@ func (r *Ref) utxoAt(tip string) map[string]string {
 	if b == nil {
 		return nil
 	}
-	pm := r.utxoAt(b.parent)
+	pm := r.utxoAtL(b.parent)
 	if pm == nil {
 		return nil
 	}
@@ -364,6 +386,8 @@ func (r *Ref) dumpHash(tip string) string {
 }
 
 func (r *Ref) isAncestorOrEqual(a, b string) bool {
+	r.mu.Lock()
+	defer r.mu.Unlock()
 	for b != "" {
 		if a == b {
 			return true
@@ -582,6 +606,8 @@ type WlRun struct {
 	// miss3.go
 	Stuck        []string    // the watchdog had to release a paced snapshot (HurryUp) because the workload made no progress
 	RestartPanic string      // a clean Close + NewChainExt inside the history panicked with this message
+	RestartDiff  string      // miss4.go: a clean Close + restart inside the history came up in another state than the one before it
+	Restarts     [][2]*State // miss4.go: the state before every clean shutdown inside the history and the state right after the restart
 	Closed       []closedDir // directories left behind by the clean shutdowns inside the history
 }
 
@@ -750,7 +776,7 @@ func runWorkload(root string, base *Base, w Workload, only int) *WlRun {
 			res := k.Submit(raw)
 			wr.Results = append(wr.Results, op.Name+": "+res.String())
 		default:
-			if !wx.wideOp(op, &k) && !wx.missOp(op, &k) && wr.Err == "" {
+			if !wx.wideOp(op, &k) && !wx.missOp(op, &k) && !wx.miss4Op(op, &k) && wr.Err == "" {
 				wr.Err = "unknown op " + op.K
 			}
 		}
@@ -780,15 +806,35 @@ func runWorkload(root string, base *Base, w Workload, only int) *WlRun {
 // truncWatchdog: a child that re-opens a directory with a cut snapshot file has nothing slow to do
 const truncWatchdog = 20 * time.Second
 
-func runChild(mode, dir, blocks string) *ChildRes {
-	return runChildT(mode, dir, blocks, 60*time.Second)
+// childPar: fresh processes alive at a time, over all workloads in flight (C07_PAR overrides; default: the cores but two - the
+// workload being driven in this process and the oracle need theirs)
+var childPar = func() int {
+	if v, err := strconv.Atoi(os.Getenv("C07_PAR")); err == nil && v > 0 {
+		return v
+	}
+	n := runtime.NumCPU() - 2
+	if n < 4 {
+		n = 4
+	}
+	if n > 28 {
+		n = 28
+	}
+	return n
+}()
+
+var childSem = make(chan bool, childPar)
+
+func runChild(env []string, mode, dir, blocks string) *ChildRes {
+	return runChildT(env, mode, dir, blocks, 60*time.Second)
 }
 
-func runChildT(mode, dir, blocks string, watchdog time.Duration) *ChildRes {
+func runChildT(env []string, mode, dir, blocks string, watchdog time.Duration) *ChildRes {
+	childSem <- true
+	defer func() { <-childSem }()
 	rf := strings.TrimRight(dir, "/") + "." + mode + ".json"
 	os.Remove(rf)
 	cmd := exec.Command(os.Args[0], "-child", mode, dir, blocks, fmt.Sprint(genesisTime), rf)
-	cmd.Env = append(os.Environ(), childEnv...)
+	cmd.Env = append(os.Environ(), env...)
 	cmd.Stdout, cmd.Stderr = nil, nil
 	done := make(chan error, 1)
 	cmd.Start()
